@@ -1231,6 +1231,10 @@ end
 
 -- Helper to determine the resulting type of an operation with an integral and a float.
 local function integral_float_op_type(ltype, rtype)
+  if not rtype.is_scalar or not ltype.is_scalar then
+    -- cannot do scalar operations for on a non scalar (e.g. a pointer)
+    return nil
+  end
   if ltype.is_float or rtype.is_float then -- preserve the same from other type
     return rtype
   else -- fallback to the default number type
